@@ -221,8 +221,30 @@ func RandomSchema(seed int64) *Schema {
 	return s
 }
 
+// APISchema is the schema of the model API cases (MC_Api.tla): one root table with two single-column indexes,
+// an optional, a set, a map and an immutable column and an optional weak reference to the table itself.
+func APISchema() *Schema {
+	s := &Schema{Name: "adb", Tables: map[string]Table{
+		"A": {IsRoot: true, Indexes: [][]string{{"name"}, {"i2"}},
+			Cols: map[string]Col{
+				"name": atom(b("string")),
+				"i":    atom(b("integer")),
+				"i2":   atom(b("integer")),
+				"o":    opt(b("string")),
+				"s":    set(b("string"), 0, -1),
+				"m":    mp(b("string"), b("string"), 0, -1),
+				"imm":  imm(atom(b("string"))),
+				"peer": opt(ref("A", "weak")),
+			}},
+	}}
+	s.Normalize()
+	return s
+}
+
 func NamedSchema(name string, seed int64) (*Schema, error) {
 	switch name {
+	case "api":
+		return APISchema(), nil
 	case "small":
 		return SmallSchema(), nil
 	case "kitchen":
